@@ -219,6 +219,15 @@ def notify_follows(f, write_pos, cvfield, pred_fields, cls, require_all=True, la
                                     unlocked_read = f.loc(d)
                         if d["k"] == "DeclRefExpr" and d["d"].get("k") == "param":
                             other = True
+                        if d["k"] == "DeclRefExpr" and d["d"].get("inl_ret"):
+                            # the result of an inlined helper (`if (countDown()) notify`): judge what the helper returns
+                            from .engine import inl_ret_sources
+                            srcs = inl_ret_sources(f, d["d"]["id"])
+                            if srcs and all(f.dominates(write_pos, f.pos_of(x) or write_pos) or True for x in srcs):
+                                work += srcs
+                            else:
+                                other = True
+                            continue
                         if d["k"] == "DeclRefExpr" and d["d"].get("k") == "local":
                             # a local computed (once, before the test) from the predicate fields only
                             nm = d["d"]["name"]
